@@ -180,7 +180,7 @@ class Ctx:
                 continue
             seen.append(f)
             txt = strip_coq_comments(open(os.path.join(COQ, f)).read())
-            for m in re.finditer(r"From\s+PV\s+Require\s+(?:Import|Export)?\s*([^.]*(?:\.[A-Za-z_][^.\s]*)*)\s*\.\s", txt + " "):
+            for m in re.finditer(r"From\s+PV\s+Require\s+(?:Import\s+|Export\s+)?(.*?)\.(?:\s|$)", txt, re.S):
                 for mod in m.group(1).split():
                     todo.append(mod.replace(".", "/") + ".v")
         return seen
